@@ -247,7 +247,7 @@ def check_strings(ctx, thorough):
     for s in cases:
         if '\\' not in s and s.strip():
             # the same text is also the name of a routine: a quoted string is still a string
-            ident = s if s.isidentifier() and s not in DOC_KEYWORDS + UNDOC + REGS + list(ABBR) + BUILTINS else 'zq_r'
+            ident = s if re.match(r'^[A-Za-z_][A-Za-z0-9_]*$', s) and s not in DOC_KEYWORDS + UNDOC + REGS + list(ABBR) + BUILTINS else 'zq_r'
             text = 'define %s begin hue 1 end define mm "%s" print mm' % (ident, ident)
             ctx.count()
             p, e = lang.compile_script(text)
